@@ -6,7 +6,7 @@ import sys
 
 RULE = ("Hypothesis-generated call histories: 0-4 earlier research.backtest calls followed by a probe call. Earlier calls vary the "
         "exchange name (3 names), spot/futures, leverage, leverage mode, fee, balance, routes / symbols / timeframes, warm-up "
-        "size, simulator mode, and may abort part-way (a scripted hook raises at a drawn step, or an order is rejected). Each "
+        "size, simulator mode, declared hyperparameters with none / some / all of them passed, decisions gated by an indicator that reads the configured candle window, and may abort part-way (a scripted hook raises at a drawn step, or an order is rejected). Each "
         "history runs in ONE fresh interpreter (subprocess) without any harness-side cleaning of jesse's globals; the probe "
         "alone runs in another fresh interpreter. The probe's full return value (metrics, NaN-aware, exact), its orders (all "
         "fields, in submission order), trades, final balances and equity samples must be identical, and the arguments passed "
@@ -111,6 +111,16 @@ def run_shard(acc, shard, nshards, seed, tier):
         elif kind == 'oversize':
             s = spec['routes'][0]['symbol']
             spec['scripts'][s]['unit'] = spec['scripts'][s]['unit'] * 40
+        if draw(st.booleans()):
+            for sc in spec['scripts'].values():
+                sc['gate'] = 'obv'  # decisions read an indicator whose value depends on the configured candle window
+        hpk = draw(st.sampled_from(['none', 'none', 'declared-only', 'partial', 'partial', 'full']))
+        if hpk != 'none':
+            # strategies declare hyperparameters (the entry size is scaled by `mult`); the caller passes none, some or all of them
+            for sc in spec['scripts'].values():
+                sc['hyperparameters'] = [dict(name='mult', type='float', min=0.25, max=2.0, default=draw(st.sampled_from([0.5, 1.0, 1.5]))),
+                                         dict(name='other', type='int', min=1, max=10, default=draw(st.integers(1, 10)))]
+            spec['hp'] = {'declared-only': None, 'partial': draw(st.sampled_from([{'other': 7}, {'mult': 0.75}])), 'full': {'mult': 1.25, 'other': 2}}[hpk]
         spec.pop('n', None)
         return spec
 
